@@ -3,7 +3,8 @@
    LocalDataset classes and the stand-in python_on_whales:
      [sc, raised, exc, calls |-> <<[image, command, mounts |-> <<[host, point, mode]>>, remove, stream,
                                    filelist, data_dir_is_files_dir]>>,
-      returned, returned_in_outdir, result_is_containers, tmp_left, pkg_dir_is_tmp]
+      returned, returned_in_outdir, result_is_containers, tmp_left, pkg_dir_is_tmp,
+      e2e_inputs |-> the input list the job inside the container worked on (container outcome real_runner)]
    Each scenario is one behaviour of the LocalRun machine; the clauses are the property.     *)
 EXTENDS LocalRunReq, Json, IOUtils
 
@@ -37,6 +38,8 @@ Fails(r) ==
                    THEN {"RightVolumes"} ELSE {})
         ELSE {})
   \cup (IF e.returns /\ ~(r.returned /\ r.returned_in_outdir /\ r.result_is_containers) THEN {"ReturnsResult"} ELSE {})
+  \* end to end: the result handed back was made by the package's own runner.sh from exactly the files listed, in order
+  \cup (IF e.returns /\ r.sc.container = "real_runner" /\ r.e2e_inputs # e.filelist THEN {"ReturnsResult"} ELSE {})
   \cup (IF ~e.returns /\ r.returned THEN {"NothingReturnedOnError"} ELSE {})
   \cup (IF r.tmp_left # <<>> THEN {"TempRemoved"} ELSE {})
 
